@@ -146,7 +146,8 @@ def step (st : St) (toks : List String) : St × String :=
         if leadingGlobLeaf t then (st, "err QueryError") else
         let kind : Score.Kind := if st.okapi then .okapi else .cosine
         let scored : String :=
-          match Score.apply (α := Float) kind (scoreState st.s) (scoreLex cfg st.s) t with
+          -- keys only: the BM25 parameters do not matter here (default `OkapiIndex`)
+          match @Score.apply Float _ Score.Bm25.default kind (scoreState st.s) (scoreLex cfg st.s) t with
           | .error .queryError => "err QueryError"
           | .error (.setops _) => "err SetOps"
           | .ok none => "None"
